@@ -1,0 +1,26 @@
+//go:build verif
+
+// Contracts for govc (see /verif/DESIGN.md). Comment-only file: no executable code.
+
+package crypto
+
+//@ property C29 C05 C13
+// ECDSA public-key recovery is abstracted: sig_ok / sig_pk are uninterpreted functions of the
+// signature object and the hash bytes.
+//@ smt all (declare-fun sig_ok (Int BSeq) Bool)
+//@ smt all (declare-fun sig_pk (Int BSeq) BSeq)
+//@ smt all (declare-fun pk_bytes (Int) BSeq)
+
+//@ func (sig *Signature) RecoverPublicKey(hash) (pk, err)
+//@   trusted
+//@   pure
+//@   requires sig != nil
+//@   ensures (err == nil) == sig_ok(ref(sig), seq(hash))
+//@   ensures err == nil ==> pk != nil && pk_bytes(ref(pk)) == sig_pk(ref(sig), seq(hash))
+//@   ensures err != nil ==> pk == nil
+
+//@ func (key *PublicKey) SerializeUncompressed() (bs)
+//@   trusted
+//@   pure
+//@   requires key != nil
+//@   ensures seq(bs) == pk_bytes(ref(key)) && len(bs) == 65
